@@ -87,6 +87,8 @@ class C01Facade(Harness):
         x = {"v": cx.reals("v", 4, nan=p["dropna"]), "w": cx.ints("w", 4, lo=0), "e": cx.reals("e", 2)}
         if cx.sym:
             cx.assume(x["e"][0] < x["e"][1])
+            cx.define("gapped", z3.BoolVal(False))
+            cx.define("small_gap", z3.BoolVal(False))
         return x
 
     def witness_hints(self, cx, p, x):
